@@ -7,7 +7,7 @@ use walrus::*;
 pub type Item = Vec<u64>;
 
 #[derive(Clone, Debug)]
-pub enum Op { Alloc(Item), Delete(usize), Get(usize), Iter, Len, Find(Item) }
+pub enum Op { Alloc(Item), Delete(usize), Get(usize), Iter, Len, Find(Item), IterMut }
 #[derive(Clone, Debug, PartialEq)]
 pub enum Out { Id(usize), Unit, Panic, Opt(Item), List(Vec<(usize, Item)>), Len(usize), Find(Option<usize>) }
 
@@ -30,6 +30,7 @@ pub trait Coll {
     fn get(&self, id: usize) -> Item;
     fn iter(&self) -> Vec<(usize, Item)>;
     fn len(&self) -> Option<usize> { None }
+    fn iter_mut(&mut self) -> Option<Vec<(usize, Item)>> { None }
     fn find(&self, _it: &Item) -> Option<Option<usize>> { None }
 }
 
@@ -66,7 +67,7 @@ impl Coll for Types {
 // ---- generic helper for the plain TombstoneArena collections ----
 macro_rules! plain_coll {
     ($name:ident, $kind:expr, $label:expr, $idty:ty, $field:ident,
-     gen: $gen:expr, add: $add:expr, enc: $enc:expr $(, len: $len:expr)?) => {
+     gen: $gen:expr, add: $add:expr, enc: $enc:expr $(, len: $len:expr)? $(, itermut: $itermut:expr)?) => {
         struct $name { m: Module, ids: Vec<$idty>, aux: Aux }
         impl Coll for $name {
             fn kind(&self) -> u64 { $kind }
@@ -85,6 +86,7 @@ macro_rules! plain_coll {
                 self.m.$field.iter().map(|x| (x.id().index(), f(&self.m, x.id(), &self.aux))).collect()
             }
             $( fn len(&self) -> Option<usize> { let f: fn(&Module) -> usize = $len; Some(f(&self.m)) } )?
+            $( fn iter_mut(&mut self) -> Option<Vec<(usize, Item)>> { let _marker: bool = $itermut; let ids: Vec<$idty> = self.m.$field.iter_mut().map(|x| x.id()).collect(); let f: fn(&Module, $idty, &Aux) -> Item = $enc; Some(ids.into_iter().map(|id| (id.index(), crate::util::catch(|| f(&self.m, id, &self.aux)).unwrap_or_else(|| vec![999_999]))).collect()) } )?
         }
     };
 }
@@ -116,13 +118,15 @@ plain_coll!(Exports, 1, "exports", ExportId, exports,
             ExportItem::Function(f) => (0, a.funcs.iter().position(|x| *x == f).unwrap() as u64),
             ExportItem::Table(_) => (1, 0), ExportItem::Memory(_) => (2, 0),
             ExportItem::Global(g) => (3, a.globals.iter().position(|x| *x == g).unwrap() as u64) };
-            let mut v = vec![k, i]; v.extend(enc_str(&e.name)); v });
+            let mut v = vec![k, i]; v.extend(enc_str(&e.name)); v },
+    itermut: true);
 
 plain_coll!(Memories, 2, "memories", MemoryId, memories,
     gen: |r, _a| { let hasmax = r.below(2); vec![r.below(2), r.below(2), r.below(4), hasmax, if hasmax == 1 { 4 + r.below(3) } else { 0 }] },
     add: |m, _a, it| m.memories.add_local(it[0] == 1, it[1] == 1, it[2], if it[3] == 1 { Some(it[4]) } else { None }, None),
     enc: |m, id, _a| { let x = m.memories.get(id); vec![x.shared as u64, x.memory64 as u64, x.initial, x.maximum.is_some() as u64, x.maximum.unwrap_or(0)] },
-    len: |m| m.memories.len());
+    len: |m| m.memories.len(),
+    itermut: true);
 
 plain_coll!(Funcs, 3, "functions", FunctionId, funcs,
     gen: |r, _a| vec![r.below(2), r.below(2)],
@@ -133,7 +137,8 @@ plain_coll!(Funcs, 3, "functions", FunctionId, funcs,
             if it[1] == 1 { b.func_body().local_get(args[0]); }
             b.finish(args, &mut m.funcs) } },
     enc: |m, id, a| { let f = m.funcs.get(id); let k = match &f.kind { FunctionKind::Import(_) => 0, FunctionKind::Local(_) => 1, FunctionKind::Uninitialized(_) => 2 };
-            vec![k, a.tys.iter().position(|t| *t == f.ty()).unwrap() as u64] });
+            vec![k, a.tys.iter().position(|t| *t == f.ty()).unwrap() as u64] },
+    itermut: true);
 
 plain_coll!(Globals, 4, "globals", GlobalId, globals,
     gen: |r, _a| vec![r.below(4), r.below(2), r.below(5)],
@@ -146,7 +151,8 @@ plain_coll!(Globals, 4, "globals", GlobalId, globals,
 plain_coll!(Tables, 5, "tables", TableId, tables,
     gen: |r, _a| { let hasmax = r.below(2); vec![r.below(2), r.below(4), hasmax, if hasmax == 1 { 4 + r.below(3) } else { 0 }, r.below(2)] },
     add: |m, _a, it| m.tables.add_local(it[0] == 1, it[1], if it[2] == 1 { Some(it[3]) } else { None }, if it[4] == 0 { RefType::Funcref } else { RefType::Externref }),
-    enc: |m, id, _a| { let x = m.tables.get(id); vec![x.table64 as u64, x.initial, x.maximum.is_some() as u64, x.maximum.unwrap_or(0), (x.element_ty == RefType::Externref) as u64] });
+    enc: |m, id, _a| { let x = m.tables.get(id); vec![x.table64 as u64, x.initial, x.maximum.is_some() as u64, x.maximum.unwrap_or(0), (x.element_ty == RefType::Externref) as u64] },
+    itermut: true);
 
 plain_coll!(Datas, 6, "data", DataId, data,
     gen: |r, _a| { let mut v = vec![r.below(2)]; let n = r.usize(3); for _ in 0..n { v.push(r.below(256)); } v },
@@ -159,14 +165,16 @@ plain_coll!(Elems, 7, "elements", ElementId, elements,
     add: |m, a, it| { let kind = match it[0] { 0 => ElementKind::Passive, 1 => ElementKind::Declared, _ => ElementKind::Active { table: a.tables[0], offset: ConstExpr::Value(ir::Value::I32(0)) } };
             m.elements.add(kind, ElementItems::Functions(it[1..].iter().map(|i| a.funcs[*i as usize]).collect())) },
     enc: |m, id, a| { let e = m.elements.get(id); let mut v = vec![match e.kind { ElementKind::Passive => 0, ElementKind::Declared => 1, ElementKind::Active { .. } => 2 }];
-            if let ElementItems::Functions(fs) = &e.items { v.extend(fs.iter().map(|f| a.funcs.iter().position(|x| x == f).unwrap() as u64)); } v });
+            if let ElementItems::Functions(fs) = &e.items { v.extend(fs.iter().map(|f| a.funcs.iter().position(|x| x == f).unwrap() as u64)); } v },
+    itermut: true);
 
 plain_coll!(Imports, 8, "imports", ImportId, imports,
     gen: |r, _a| { let mut v = vec![r.below(2), r.below(2)]; v.extend(gen_name(r)); v },
     add: |m, a, it| { let name = str_of(&it[2..]); if it[0] == 0 { m.imports.add("env", &name, a.funcs[it[1] as usize]) } else { m.imports.add("env", &name, a.globals[it[1] as usize]) } },
     enc: |m, id, a| { let i = m.imports.get(id); let (k, x) = match i.kind { ImportKind::Function(f) => (0, a.funcs.iter().position(|y| *y == f).unwrap() as u64),
             ImportKind::Global(g) => (1, a.globals.iter().position(|y| *y == g).unwrap() as u64), _ => (9, 0) };
-            let mut v = vec![k, x]; v.extend(enc_str(&i.name)); v });
+            let mut v = vec![k, x]; v.extend(enc_str(&i.name)); v },
+    itermut: true);
 
 fn fresh(kind: u64) -> Box<dyn Coll> {
     // every collection starts from a module whose collection under test is empty:
@@ -207,6 +215,7 @@ pub fn run_history(kind: u64, ops: &[Op]) -> Vec<Out> {
             Op::Iter => Out::List(c.iter()),
             Op::Len => Out::Len(c.len().unwrap()),
             Op::Find(it) => Out::Find(c.find(it).unwrap()),
+            Op::IterMut => Out::List(c.iter_mut().unwrap()),
         };
         outs.push(o);
     }
@@ -215,7 +224,7 @@ pub fn run_history(kind: u64, ops: &[Op]) -> Vec<Out> {
 
 fn gen_history(kind: u64, r: &mut Rng, maxlen: usize) -> Vec<Op> {
     let mut c = fresh(kind);
-    let has_len = c.len().is_some(); let has_find = c.find(&vec![0, 0]).is_some();
+    let has_len = c.len().is_some(); let has_find = c.find(&vec![0, 0]).is_some(); let has_im = c.iter_mut().is_some();
     let n = 1 + r.usize(maxlen);
     let mut ops = vec![]; let mut nids = 0usize;
     for _ in 0..n {
@@ -224,7 +233,7 @@ fn gen_history(kind: u64, r: &mut Rng, maxlen: usize) -> Vec<Op> {
             0..=3 => Op::Alloc(c.gen_item(r)),
             4 | 5 if nids > 0 => Op::Delete(r.usize(nids)),
             6 if nids > 0 => Op::Get(r.usize(nids)),
-            7 => Op::Iter,
+            7 => if has_im && r.chance(1, 2) { Op::IterMut } else { Op::Iter },
             8 if has_len => Op::Len,
             9 if has_find => Op::Find(c.gen_item(r)),
             _ => Op::Iter,
@@ -237,7 +246,7 @@ fn gen_history(kind: u64, r: &mut Rng, maxlen: usize) -> Vec<Op> {
 }
 
 fn item_v(it: &Item) -> String { format!("[{}]%N", it.iter().map(|x| x.to_string()).collect::<Vec<_>>().join(";")) }
-fn op_v(o: &Op) -> String { match o { Op::Alloc(i) => format!("OAlloc {}", item_v(i)), Op::Delete(i) => format!("ODelete {}", i), Op::Get(i) => format!("OGet {}", i), Op::Iter => "OIter".into(), Op::Len => "OLen".into(), Op::Find(i) => format!("OFind {}", item_v(i)) } }
+fn op_v(o: &Op) -> String { match o { Op::Alloc(i) => format!("OAlloc {}", item_v(i)), Op::Delete(i) => format!("ODelete {}", i), Op::Get(i) => format!("OGet {}", i), Op::Iter => "OIter".into(), Op::Len => "OLen".into(), Op::Find(i) => format!("OFind {}", item_v(i)), Op::IterMut => "OIterMut".into() } }
 fn out_v(o: &Out) -> String { match o {
     Out::Id(i) => format!("RId {}", i), Out::Unit => "RUnit".into(), Out::Panic => "RPanic".into(), Out::Opt(i) => format!("ROpt (Some {})", item_v(i)),
     Out::List(l) => format!("RList [{}]", l.iter().map(|(i, x)| format!("({},{})", i, item_v(x))).collect::<Vec<_>>().join(";")),
@@ -265,7 +274,7 @@ pub fn oracle(kind: u64, ops: &[Op], outs: &[Out]) -> Option<String> {
             (Op::Get(id), o) => { match items.get(*id) {
                 Some((v, true)) => if *o != Out::Opt(v.clone()) { return Some(format!("step {}: id {} no longer denotes its item", n, id)); },
                 _ => if *o != Out::Panic { return Some(format!("step {}: dead id {} resolved to {:?}", n, id, o)); } } }
-            (Op::Iter, Out::List(l)) => if *l != live { return Some(format!("step {}: iteration is not the live items in creation order", n)); },
+            (Op::Iter, Out::List(l)) | (Op::IterMut, Out::List(l)) => if *l != live { return Some(format!("step {}: iteration is not the live items in creation order", n)); },
             (Op::Len, Out::Len(k)) => if *k != live.len() { return Some(format!("step {}: len {} != live {}", n, k, live.len())); },
             (Op::Find(it), Out::Find(f)) => { let e = live.iter().find(|(_, x)| x == it).map(|(i, _)| *i); if *f != e { return Some(format!("step {}: find returned {:?}, expected {:?}", n, f, e)); } }
             (o, x) => return Some(format!("step {}: malformed observation {:?} / {:?}", n, o, x)),
@@ -277,10 +286,11 @@ pub fn oracle(kind: u64, ops: &[Op], outs: &[Out]) -> Option<String> {
 fn enumerate(kind: u64, len: usize, out: &mut Vec<Vec<Op>>) {
     // exhaustive histories of exactly `len` ops over a 2-item alphabet and ids 0..2
     let mut c = fresh(kind);
-    let has_len = c.len().is_some(); let has_find = c.find(&vec![0, 0]).is_some();
+    let has_len = c.len().is_some(); let has_find = c.find(&vec![0, 0]).is_some(); let has_im = c.iter_mut().is_some();
     let mut r = Rng::new(7); let a = c.gen_item(&mut r); let mut b = c.gen_item(&mut r); let mut g = 0; while b == a && g < 50 { b = c.gen_item(&mut r); g += 1; }
     let mut alphabet = vec![Op::Alloc(a.clone()), Op::Alloc(b), Op::Delete(0), Op::Delete(1), Op::Get(0), Op::Get(1), Op::Iter];
-    if has_len { alphabet.push(Op::Len); } if has_find { alphabet.push(Op::Find(a)); }
+    if has_len { alphabet.push(Op::Len); } if has_find { alphabet.push(Op::Find(a)); } if has_im { alphabet.push(Op::IterMut); }
+    alphabet.push(Op::Delete(2)); alphabet.push(Op::Get(2));
     fn rec(alpha: &[Op], len: usize, cur: &mut Vec<Op>, nal: usize, out: &mut Vec<Vec<Op>>) {
         if cur.len() == len { out.push(cur.clone()); return; }
         for o in alpha {
@@ -308,11 +318,11 @@ pub fn main(args: &[String]) {
     let mut seen = std::collections::HashSet::new(); let mut nontrivial = 0u64;
     for (kind, ops) in &hist {
         // drop ids that were never handed out (possible for types because of de-duplication)
-        let outs = match catch(|| run_history(*kind, ops)) { Some(o) => o, None => continue };
+        let outs = match catch(|| run_history(*kind, ops)) { Some(o) => o, None => { oracle_viol.push(Json::obj(vec![("kind", Json::Num(*kind as f64)), ("what", Json::Str("step ?: an operation panicked where the property allows no panic (only get/delete of an absent id may)".into())), ("case", Json::Str(format!("{:?}", ops)))])); continue } };
         per_kind[*kind as usize] += 1; total_steps += ops.len() as u64;
         let mut ids_seen = std::collections::HashSet::new();
         for (o, x) in ops.iter().zip(&outs) {
-            op_hist[match o { Op::Alloc(_) => 0, Op::Delete(_) => 1, Op::Get(_) => 2, Op::Iter => 3, Op::Len => 4, Op::Find(_) => 5 }] += 1;
+            op_hist[match o { Op::Alloc(_) => 0, Op::Delete(_) => 1, Op::Get(_) => 2, Op::Iter | Op::IterMut => 3, Op::Len => 4, Op::Find(_) => 5 }] += 1;
             if *x == Out::Panic { panics += 1; }
             if let Out::Id(i) = x { if !ids_seen.insert(*i) { dedups += 1; } }
         }
